@@ -38,6 +38,52 @@ OPT_SETS = [
     {"ph": True, "seq": False, "vary_keys": False, "deviate": False, "p_sub": 0.1, "insp_counts": [2, 3, 3]},
 ]
 
+
+
+def pin_c07(case):
+    """earlier-stage failures that need a hand-built constellation, each followed by two inspections that must not run"""
+    from harness import keys as hk
+
+    def fn(env, wd):
+        p = vscen.Pin(env)
+        k0, owner = hk.sslib_key("ed25519", 0), hk.sslib_key("ed25519", 5)
+        M, P = p.art("src/a.c"), p.art("out/a.o")
+        expect = None
+        if case == "sibling_subkeys_under_signed":
+            # threshold 2, two signing subkeys of ONE gpg master authorised individually, one link by each: ONE functionary
+            m4, s1, s2 = hk.GPG_MASTER4, hk.GPG_M4_S1, hk.GPG_M4_S2
+            p.store({m4: env.gpg.pub(m4)})
+            p.step("build", [s1, s2], threshold=2)
+            p.link("build", s1, ("gpg", s1 + "!"), M, P)
+            p.link("build", s2, ("gpg", s2 + "!"), M, P)
+            p.info["under_signed"] = True
+            expect = "ThresholdVerificationError"
+        elif case in ("require_on_empty_products", "require_on_empty_materials"):
+            # the link recorded nothing on that side: REQUIRE of a file must fail all the same
+            side = case.rsplit("_", 1)[1]
+            p.store({k0.keyid: k0.pub})
+            rules = [["REQUIRE", "app.bin"], ["ALLOW", "app.bin"], ["DISALLOW", "*"]]
+            p.step("build", [k0.keyid], em=rules if side == "materials" else [["ALLOW", "*"]],
+                   ep=rules if side == "products" else [["ALLOW", "*"]])
+            p.link("build", k0.keyid, k0, {} if side == "materials" else M, {} if side == "products" else P)
+            p.info["rule_violation"] = True
+            expect = "RuleVerificationError"
+        elif case == "require_after_everything_consumed":
+            # earlier rules consumed the whole queue: the REQUIRE that follows looks at an empty queue
+            p.store({k0.keyid: k0.pub})
+            p.step("build", [k0.keyid], ep=[["CREATE", "*"], ["REQUIRE", "app.bin"], ["DISALLOW", "*"]])
+            p.link("build", k0.keyid, k0, {}, P)
+            p.info["rule_violation"] = True
+            expect = "RuleVerificationError"
+        p.inspect("pi1", wd)
+        p.inspect("pi2", wd)
+        return p.scenario(owner, wd, tags=["c07:" + case], expect=expect)
+    return fn
+
+
+PINNED = [("c07:" + c, pin_c07(c)) for c in ("sibling_subkeys_under_signed", "require_on_empty_products", "require_on_empty_materials",
+                                               "require_after_everything_consumed")]
+
 STAGE = {"SignatureVerificationError": "layout-signature", "LayoutExpiredError": "expiry", "LinkNotFoundError": "load-links",
          "ThresholdVerificationError": "threshold", "BadReturnValueError": "inspection-retval",
          "TimeoutExpired": "inspection-timeout", "FormatError": "format"}
@@ -81,6 +127,8 @@ def oracle(scen, out):
             bad.append("layout %r is %s but commands %r of it or of its sublayouts ran" % (path, info["variant"], sub))
         if info.get("rule_violation") and mine:
             bad.append("layout %r violates a step rule but its inspections %r ran" % (path, mine))
+        if info.get("under_signed") and mine:
+            bad.append("a step of layout %r lacks its threshold of distinct functionaries but the inspections %r ran" % (path, mine))
         # a parent proceeds to its own inspections only after each verified sublayout completed successfully
         if mine:
             first = log.index(mine[0])
@@ -126,8 +174,11 @@ def run(ctx):
         ctx.oblige("cli-default-inspection-time-limit", got == _st.LINK_CMD_EXEC_TIMEOUT and got is not None, repr(got))
     except SystemExit:
         ctx.oblige("cli-default-inspection-time-limit", False, "argument parser rejected a minimal command line")
+    pinned, _, _ = vscen.run_all(ctx, [], 0, use_gpg=True, pinned=PINNED)
+    pinned_summary = vscen.check_expectations(ctx, pinned, vcore.replay_file)
     recs, model = vcore.run_scenarios(ctx, OPT_SETS, n,
                                       families=("ed25519", "rsa", "ecdsa") if ctx.thorough() else ("ed25519",))
+    recs = pinned + recs
     dist, nviol = {}, 0
     for r in recs:
         o = r["impl"][0]
@@ -163,6 +214,7 @@ def run(ctx):
                                            "with disagreeing materials / products; failing sublayouts; violated step rules. compared with "
                                            "the model: verdict class, summary link, ordered log = model trace. non-trivial = at least one "
                                            "inspection somewhere in the scenario; distinct = different (root file, link dir, keys)",
+                                   "pinned": pinned_summary,
                                    "stage_x_inspections_x_ran": dict(sorted(dist.items())), "rejecting_stage": by_stage,
                                    "rejected_with_inspections_left_unrun": not_run, "oracle_violations": len(bad),
                                    "oracle": "on the implementation's log alone: no duplicates; per layout a prefix of its inspection "
